@@ -503,7 +503,7 @@ Result execute(const Plan &p) {
     //  known_findings.json C09-nested-level-schedule; whole solves that use them would only repeat it)
     // (whole hierarchies and solves are run from inside a caller's region in C01 and C10, judged there by truthfulness and by heap / stack
     //  independence; here the comparison with the single-threaded reference is kept to the kernels, reductions, sweeps and adapters)
-    if (nested && (w.comp == C_SOLVE || w.comp == C_HIER)) nested = false;
+    if (nested && (w.comp == C_SOLVE || w.comp == C_HIER) && !getenv("C09_NESTED_ALL")) nested = false;
     if (nested) {
         s3 = world(nt, p.sched, [&]() {
             #pragma omp parallel
